@@ -215,6 +215,11 @@ class TcpConnection(
                 except rfc8323common.CloseConnection as e:
                     self._ctx._dispatch_error(self, e.args[0])
                     self._transport.close()
+                if self._transport is None or self._transport.is_closing():
+                    # We aborted (or the peer released / aborted) the
+                    # connection: nothing that is still spooled may be
+                    # processed any more.
+                    return
                 continue
 
             if self._remote_settings is None:
